@@ -298,10 +298,10 @@ def node_value(spec: Spec, nd: Node, base: Any, kwargs: Dict[str, Any], bad: Lis
     if nd.name == spec.input:
         for j, key in enumerate(spec.input_keys):
             v = v + ICOEF[j] * num(kwargs.get(key), bad, (nd.name, key))
-    if nd.takes_ad:
+    if nd.takes_ad and "additional_data" in kwargs:
+        # presence counts too (+501): additional_data = 0 is different from "no additional_data"
         ad = kwargs.get("additional_data")
-        if ad is not None:
-            v = v + AD_COEF * num(ad, bad, (nd.name, "additional_data"))
+        v = v + 501 + AD_COEF * num(ad, bad, (nd.name, "additional_data"))
     return v
 
 
